@@ -307,7 +307,7 @@ def main():
             for ch in engine.chunks(two, 200):
                 shards.append((tid, ch, '2-defects', dl))
         engine.phase(ck, 'paths with two injected defects', shard_tree, shards, paths=nd)
-    ck.assumptions = ['UNSPEC paths (duplicated separators in the middle, non-decimal index spellings, empty quoted title, text glued to a closing quote, '
+    ck.assumptions = ['UNSPEC paths (duplicated separators in the middle, non-decimal index spellings, text glued to a closing quote, '
                       'letter case of titles, removal of a single section) are executed but not compared']
     ck.finish('paths enumerated from the tree (every option x every qualifier form) and their systematically broken variants, short strings over '
               'the path alphabet; three cases per path (lookups, by-path setter, by-path remove); non-trivial = distinct resolving paths')
